@@ -268,6 +268,21 @@ def run_case(ctx, case):
                 elif sec is not None:
                     ctx.fail('lookup|get_section_by_name|absent', 'name %r -> %r' % (nm, sec), case)
 
+    # --- type filters of the enumerations (only where every section constructs)
+    if nsec and len(idxs) == nsec and all_ok and valid:
+        by_type = {}
+        for i, sec in seen.items():
+            t = sec['sh_type']
+            if isinstance(t, str):
+                by_type.setdefault(t, []).append(i)
+        for t in sorted(by_type)[:4] + ['SHT_NO_SUCH_TYPE']:
+            ok, lst = guard('iter_sections(type)', lambda: list(ef.iter_sections(type=t)))
+            if ok:
+                got_idx = [next((i for i in by_type.get(t, []) if dict(seen[i].header) == dict(sec.header) and seen[i].name == sec.name), None) for sec in lst]
+                if len(lst) != len(by_type.get(t, [])) or None in got_idx or sorted(got_idx) != got_idx and len(set(R['names'][i] for i in by_type.get(t, []))) == len(by_type.get(t, [])):
+                    ctx.fail('iter_sections|type-filter', 'type %s: model indices %r, filter yielded %d sections' % (t, by_type.get(t, []), len(lst)), case)
+        ctx.count('filter.sections')
+
     # --- segments
     nseg = R['phnum']
     ok, n = guard('num_segments', ef.num_segments)
@@ -299,6 +314,17 @@ def run_case(ctx, case):
                     if j in segseen and (dict(seg.header) != dict(segseen[j].header) or type(seg) is not type(segseen[j])):
                         ctx.fail('iter_segments|order', 'position %d differs from get_segment(%d)' % (j, j), case)
                         break
+    if nseg and len(jdxs) == nseg and seg_ok:
+        by_type = {}
+        for j, seg in segseen.items():
+            t = seg['p_type']
+            if isinstance(t, str):
+                by_type.setdefault(t, []).append(j)
+        for t in sorted(by_type)[:3] + ['PT_NO_SUCH_TYPE']:
+            ok, lst = guard('iter_segments(type)', lambda: list(ef.iter_segments(type=t)), allow_elferror=not valid)
+            if ok and [dict(x.header) for x in lst] != [dict(segseen[j].header) for j in by_type.get(t, [])]:
+                ctx.fail('iter_segments|type-filter', 'type %s: model indices %r, filter yielded %d segments' % (t, by_type.get(t, []), len(lst)), case)
+        ctx.count('filter.segments')
     _register(ctx, m, R, data)
 
 
